@@ -199,7 +199,13 @@ def execute(program):
                 with quiet():
                     it = iter(w.m.branches)
                     for b_ in range(len(w.ref.ncomp_per_branch)):
-                        br = next(it)
+                        try:
+                            br = next(it)
+                        except Exception as e:  # noqa: BLE001
+                            if exc_in_harness(e):
+                                raise HarnessError(str(e)) from e
+                            w.violate("setncomp_surroundings", f"iterating over cell.branches raised {exc_text(e)} after set_ncomp calls made inside the loop", i)
+                            break
                         n_ = ns[b_ % len(ns)]
                         if n_ is None:
                             continue
